@@ -633,15 +633,16 @@ impl<'a, T> ContextBase<'a, T> {
             .find(|(n, _)| n.node.as_str() == name)
             .map(|(_, value)| value)
             .cloned();
-        if value.is_none()
-            && let Some(default) = default
-        {
-            return Ok((Pos::default(), default()));
-        }
         let (pos, value) = match value {
             Some(value) => (value.pos, self.resolve_input_value(value)?),
             None => (Pos::default(), None),
         };
+        // 6.4.1: the default applies whenever there is no value, also for an omitted variable
+        if value.is_none()
+            && let Some(default) = default
+        {
+            return Ok((pos, default()));
+        }
         InputType::parse(value)
             .map(|value| (pos, value))
             .map_err(|e| e.into_server_error(pos))
